@@ -85,7 +85,9 @@ def gen(rng, i, tier):
         if c.get("group"):
             c["group"] = gmap.get(c["group"], c["group"])
     return {"spec": spec, "cseed": rng.randrange(1 << 40), "heat": rng.random() < 0.5, "group": rng.random() < 0.75,
-            "render": i % 9 == 0, "hostile": hostile, "current_scale": scale}
+            "render": i % 9 == 0, "hostile": hostile, "current_scale": scale,
+            # the drawn system may be the product of an edit history (registries out of node order, index gaps)
+            "history": ["fresh", "identity_change_comp", "index_gaps", "solve_then_move_leaf", "fresh", "solve_then_change_comp"][i % 6]}
 
 
 def make_config(rng, ns, spec):
@@ -161,10 +163,7 @@ def hex_rgb(h):
 def run(ctx, case):
     ns = loader.load()
     rng = random.Random(case["cseed"])
-    spec = case["spec"]
-    st, sysobj = H.try_build(spec)
-    if st != "ok":
-        raise RuntimeError("spec rejected: %s" % H.exc_sig(sysobj))
+    spec, sysobj = _rows.build_with_history(ctx, case["spec"], case.get("history", "fresh"), case["cseed"] & 0xFFFFFF)
     conf = make_config(rng, ns, spec)
     conf_before = copy.deepcopy(conf)
     heat, grp = case["heat"], case["group"]
